@@ -1,12 +1,16 @@
 import DelbModel.Model.Guards
 import DelbModel.Lemmas.Guards
+import DelbModel.Lemmas.GuardOrder
 /-!
 # C09 — A node lives in at most one place; rejected edits change nothing
 
 Property theorems only; helper lemmas are in `DelbModel/Lemmas/Guards.lean`.
-The guards are evaluated before the first mutation; that a raised exception leaves the real
-trees untouched is checked on the implementation (a functional model cannot exhibit a partial
-mutation), see DESIGN.md.
+That a rejected call leaves the trees untouched is a statement about the ORDER of checks and
+mutations in the Python methods.  It is decided here over a summary of every editing entry point
+that the translator re-derives from /repo's source on every run (`Generated/GuardSkeleton.lean`,
+`c09_source_guards_first`), together with the theorem about the event machine
+(`c09_rejected_before_any_change`); the implementation is additionally explored with before/after
+dumps of all trees, see DESIGN.md.
 -/
 namespace Delb.Guards
 open Delb.Edit
@@ -139,3 +143,44 @@ example : commentContentOk "a--z".toList = false ∧ commentContentOk "foo-".toL
     commentContentOk "a-b".toList = true ∧ piTargetOk "xMl".toList = false ∧ piTargetOk "xml-x".toList = true := by decide
 
 end Delb.Guards
+
+namespace Delb.GuardOrder
+open Delb.Gen
+
+/-- event machine: on a path that keeps the discipline "checks first", a run that is rejected at
+    one of the entry point's own guards has changed nothing before -/
+theorem c09_rejected_before_any_change (allowed : List String) (p : List GuardEv) (i : Nat) (g : String)
+    (h : shapeOk allowed p = true) (hi : p[i]? = some (.guard g)) : changedBefore p i = [] :=
+  shapeOk_rejected allowed p i g h hi
+
+/-- translator obligation: every control-flow path of every editing entry point of the current
+    source (`add_following_siblings`, `add_preceding_siblings`, `replace_with`, `_prepare_new_relative`,
+    both `_validate_sibling_operation`, `append_children`, `prepend_children`, `insert_children`,
+    `__setitem__`, `__delitem__`, the three `detach` methods, the comment-content and PI-target
+    setters, the `Document.root` setter) keeps that discipline for single-node calls; every entry
+    point was found in the source and has at least one path -/
+theorem c09_source_guards_first :
+    guardSkeleton.length = 17 ∧
+    ∀ e ∈ guardSkeleton, e.paths ≠ [] ∧ ∀ p ∈ e.paths, shapeOk (allowedLater e.name) (single p) = true := by
+  decide
+
+/-- … hence: wherever one of these entry points rejects a single-node call by an own `raise` or
+    checking helper, no mutation and no call of another entry point has happened in that body -/
+theorem c09_source_rejections_change_nothing (e : EntryPaths) (he : e ∈ guardSkeleton)
+    (p : List GuardEv) (hp : p ∈ e.paths) (i : Nat) (g : String) (hi : (single p)[i]? = some (.guard g)) :
+    changedBefore (single p) i = [] :=
+  shapeOk_rejected _ _ i g ((c09_source_guards_first.2 e he).2 p hp) hi
+
+/-- the checking helpers themselves change nothing at all -/
+theorem c09_source_checkers_pure :
+    ∀ e ∈ guardSkeleton, e.name ∈ ["NodeBase._prepare_new_relative", "NodeBase._validate_sibling_operation",
+        "TagNode._validate_sibling_operation"] → ∀ p ∈ e.paths, p.all (fun ev => !changes ev) = true := by
+  decide
+
+/-- non-vacuity: the discipline is violated by "remove the old child, then insert the new one" -/
+example : shapeOk [] [.call "__delitem__", .call "insert_children"] = false ∧
+    shapeOk [] [.guard "raise IndexError"] = true ∧
+    shapeOk [] [.guard "_prepare_new_relative", .guard "_validate_sibling_operation", .mutate "_add_following_sibling"] = true ∧
+    shapeOk [] [.mutate "lxml.remove", .guard "raise InvalidOperation"] = false := by decide
+
+end Delb.GuardOrder
